@@ -379,6 +379,8 @@ func main() {
 		r.Obs("messages_output_stream", res.ProducedO)
 		r.Obs("messages_error_stream", res.ProducedE)
 		r.Obs("messages_verified_exactly_once_intact", res.Verified)
+		r.Obs("line_framings_judged_against_lines_logged_alone", res.FramingJudged)
+		r.Obs("groups_without_framing_reference", res.FramingNotCalibrated)
 		r.Obs("sink_lines_parsed", res.SinkLines)
 		r.Obs("sink_lines_with_id", res.IDLines)
 		r.Obs("producer_switches_in_sinks", res.Switches)
